@@ -7,9 +7,9 @@ from harness.core import MachineryError
 META = {
     "id": "C51",
     "level": "exploration",
-    "technique": "TLA+ spec SvOrder: cell domains (order x scheme x method x path shape for the ratio-one clause; order x scheme x ratio side x polarisation for the order clause) and the required class per cell, enumerated and validated by TLC (SvOrderTrace, with a coverage record); measurements on the real solver with the fixed-node quadrature shim: bitwise digests at ratio one, base-2 scaling exponent of the relative operator difference when the reference coupling is halved (lambda 1/8 -> 1/16), sent to TLC as integer x100",
-    "text": "Clause 1 (discrete): in all 96 unit cells both schemes at ratio 1 must give bitwise the unvaried operator and error tensors. Clause 2 (law): in all 28 order cells the difference to the unvaried operator must vanish at least like a_s^n: measured exponents on the clean tree are n (expanded) and n+1 (exponentiated) within 0.12; required >= n - 0.35; a missing term of the working order shows as n - 1.",
-    "note": "The operator is a fixed linear functional of the Mellin-space kernels under the quadrature shim (4 nodes), so the scaling law of the kernels is inherited entry by entry; integrals are not accurate and need not be. Single patch (nf = 4) for the order clause, truncated method (expanded couplings: no ODE-solver noise). Level exploration (a law over measured residual classes).",
+    "technique": "TLA+ spec SvOrder: cell domains (order x scheme x method x path shape for the ratio-one clause; order x scheme x ratio side x polarisation for the order clause) and the required class per cell, enumerated and validated by TLC (SvOrderTrace, with a coverage record); measurements on the real solver with the fixed-node quadrature shim: bitwise digests at ratio one, base-2 scaling exponent of the relative operator difference when the reference coupling is halved (larger of the pairs lambda 1/16 -> 1/32 -> 1/64), sent to TLC as integer x100",
+    "text": "Clause 1 (discrete): in all 96 unit cells both schemes at ratio 1 must give bitwise the unvaried operator and error tensors. Clause 2 (law): in all 84 order cells (within one patch and across a heavy-quark threshold upwards and downwards) the difference to the unvaried operator must vanish at least like a_s^n: measured exponents on the clean tree are n (expanded) and n+1 (exponentiated) within 0.12; required >= n - 0.35; a missing term of the working order shows as n - 1.",
+    "note": "The operator is a fixed linear functional of the Mellin-space kernels under the quadrature shim (4 nodes), so the scaling law of the kernels is inherited entry by entry; integrals are not accurate and need not be. Truncated method (expanded couplings: no ODE-solver noise). Level exploration (a law over measured residual classes).",
     "design_ref": "5 C51",
     "rule": "cell = record of SvOrder!UnitCells / OrderCells; all cells measured in both tiers (thorough: 3 ratios per order cell); non-trivial = resolved",
 }
@@ -20,8 +20,8 @@ def run(chk):
 
     unit = [dict(order=o, scheme=s, method=m, shape=sh) for o, s, m, sh in itertools.product(
         (1, 2, 3, 4), ("expo", "expanded"), ("iterate-exact", "truncated", "decompose-exact", "perturbative-exact"), ("single", "up", "down"))]
-    order = [dict(order=o, scheme=s, side=sd, pol=p) for o, s, sd, p in itertools.product(
-        (1, 2, 3, 4), ("expo", "expanded"), ("below", "above"), (False, True)) if not (p and o == 4)]
+    order = [dict(order=o, scheme=s, side=sd, pol=p, shape=sh) for o, s, sd, p, sh in itertools.product(
+        (1, 2, 3, 4), ("expo", "expanded"), ("below", "above"), (False, True), ("single", "up", "down")) if not (p and o == 4)]
     reps = 3 if chk.thorough() else 1
     with mp.get_context("fork").Pool(16) as pool:
         urecs = pool.map(svorder.unit_cell, [(c, chk.rng.randrange(10**6)) for c in unit], chunksize=2)
@@ -30,7 +30,7 @@ def run(chk):
         chk.count(1, (r["ev"], tuple(sorted(r["cell"].items()))), nontrivial=r["err"] == "" and r.get("resolved", True))
     chk.sample(urecs[0])
     chk.sample(orecs[0])
-    chk.note("exponents_x100", {f"{r['cell']['order']}-{r['cell']['scheme']}-{r['cell']['side']}-{'pol' if r['cell']['pol'] else 'unp'}": r["e100"] for r in orecs})
+    chk.note("exponents_x100", {f"{r['cell']['order']}-{r['cell']['scheme']}-{r['cell']['side']}-{'pol' if r['cell']['pol'] else 'unp'}-{r['cell']['shape']}": r["e100"] for r in orecs})
     trace = urecs + orecs + [{"ev": "coverage", "unit": unit, "order": order}]
     res = chk.tlc("SvOrderTrace", "SvOrderTrace.cfg", trace=trace, workers=1, label="cells judged, coverage checked")
     if res.violated or not res.completed:
@@ -42,7 +42,7 @@ def run(chk):
         v = t[2]
         if v.startswith("C51:"):
             c = rec["cell"]
-            fp = f"{v} order={c['order']} scheme={c['scheme']}" + (f" shape={c['shape']}" if rec["ev"] == "unit" else f" pol={c['pol']}")
+            fp = f"{v} order={c['order']} scheme={c['scheme']}" + f" shape={c['shape']}" + ("" if rec["ev"] == "unit" else f" pol={c['pol']}")
             if fp in seen:
                 continue
             seen.add(fp)
